@@ -431,8 +431,9 @@ func ruleComparator(c *Ctx, rule string) {
 			probs = append(probs, "comparator returns "+s)
 		}
 	}
-	if nIdx != 1 || nSize != 1 {
-		probs = append(probs, fmt.Sprintf("%d index tie-break returns, %d size returns (expected one each)", nIdx, nSize))
+	if nIdx < 1 || nSize != 1 {
+		// (several returns of the index comparison — one per early exit — are the same tie-break)
+		probs = append(probs, fmt.Sprintf("%d index tie-break returns, %d size returns (expected at least one / exactly one)", nIdx, nSize))
 	}
 	r.Check(len(probs) == 0, rule, "Initialize comparator", c.Pos(less.Pos()), "descending size among base fields, declaration order otherwise", strings.Join(probs, "; "))
 }
@@ -669,7 +670,8 @@ func ruleCRCExtraPreimage(c *Ctx, rule string) {
 	}
 }
 
-var reFieldConv = regexp.MustCompile(`^message\.fieldGoToDef\(local:\w+\.Name\)$`)
+// the Go field name converted by fieldGoToDef, or by the same expression written out
+var reFieldConv = regexp.MustCompile(`^(message\.fieldGoToDef\(local:\w+\.Name\)|strings\.ToLower\(\(regexp\.Regexp\)\.ReplaceAllString\(regexp\.MustCompile\("\(\[A-Z\]\)"\),local:\w+\.Name,"_\$\{1\}"\)\[1:\]\))$`)
 var reLocalName = regexp.MustCompile(`^run\(\[\]byte\(\(local:(\w+) \+ " "\)\)\)$`)
 
 // R3.5
@@ -710,20 +712,32 @@ func ruleSizeArithmetic(c *Ctx, rule string) {
 			return false
 		}
 		for _, iff := range ifsIn(ini) {
-			b, ok := iff.Cond.(*ssa.BinOp)
-			if !ok || (b.Op != token.GTR && b.Op != token.GEQ) {
+			cond, neg := stripNot(iff.Cond)
+			b, ok := cond.(*ssa.BinOp)
+			if !ok {
 				continue
 			}
 			k, isK := constInt(b.Y)
-			if !isK || k > 256 {
+			if !isK || (b.X != v && ex(b.X) != ex(v)) {
 				continue
 			}
-			if b.X != v && ex(b.X) != ex(v) {
+			// which side of the test is "too big" (v above 255)
+			big := -1
+			switch {
+			case b.Op == token.GTR && k <= 255, b.Op == token.GEQ && k <= 256:
+				big = 0
+			case b.Op == token.LEQ && k <= 255, b.Op == token.LSS && k <= 256:
+				big = 1
+			}
+			if big < 0 {
 				continue
 			}
-			tb := iff.Block().Succs[0]
+			if neg {
+				big = 1 - big
+			}
+			tb := iff.Block().Succs[big]
 			if ret, ok := tb.Instrs[len(tb.Instrs)-1].(*ssa.Return); ok && !isNilConst(ret.Results[0]) {
-				if edgeMustPass(ini, edge{iff.Block(), iff.Block().Succs[1]}, at) {
+				if edgeMustPass(ini, edge{iff.Block(), iff.Block().Succs[1-big]}, at) {
 					return true
 				}
 			}
